@@ -22,18 +22,26 @@ pub struct ConcStats {
     pub completed: u64,
     pub deadlock_checks: u64,
     pub watchdogs: u64,
+    /// wake-ups that arrived through a waker older than the one of the task's latest poll (ignored)
+    pub stale_wakes: u64,
+    /// polls that replaced the waker identity of a pending future
+    pub wakes: u64,
     pub samples: Vec<String>,
 }
 
 impl ConcStats {
     pub fn new() -> Self {
-        ConcStats { runs: 0, ops: 0, sigs: HashSet::new(), sites: [0; 16], cancelled: 0, completed: 0, deadlock_checks: 0, watchdogs: 0, samples: vec![] }
+        ConcStats { runs: 0, ops: 0, sigs: HashSet::new(), sites: [0; 16], cancelled: 0, completed: 0, deadlock_checks: 0, watchdogs: 0, stale_wakes: 0, wakes: 0, samples: vec![] }
     }
     fn absorb(&mut self, run: &Arc<Run>, logs: &[Vec<LogEv>]) {
         self.runs += 1;
         self.ops += run.ops.load(Relaxed);
         for i in 0..16 {
             self.sites[i] += run.sites[i].load(Relaxed);
+        }
+        for t in &run.tasks {
+            self.stale_wakes += t.stale_wakes.load(Relaxed);
+            self.wakes += t.wakes.load(Relaxed);
         }
         if self.sigs.len() < 2_000_000 {
             self.sigs.insert(sig_of(logs));
@@ -183,7 +191,7 @@ pub fn wl_mutex<M: RawMutex + Send + Sync + 'static>(seed: u64, n: usize, rounds
                     }
                     // half of the tasks end with a blocking lock (they must be woken), the others may end by
                     // abandoning a notified future: then nobody is left to rescue a stranded waiter
-                    let how = if last && i % 2 == 0 { Drive::Block } else { pick_drive(&mut rng) };
+                    let how = if last && i % 2 == 0 { if rng.below(3) == 0 { Drive::Repoll(1) } else { Drive::Block } } else { pick_drive(&mut rng) };
                     log!(lg, run, i, 1u8, how_code(how), {
                         let o = drive(&run, i, m.lock(), how, 1);
                         drive_stats(cancelled, completed, &o);
@@ -248,6 +256,7 @@ pub fn wl_mutex<M: RawMutex + Send + Sync + 'static>(seed: u64, n: usize, rounds
 fn how_code(h: Drive) -> u64 {
     match h {
         Drive::Block => 0,
+        Drive::Repoll(n) => 40 + n as u64,
         Drive::Once => 1,
         Drive::Yields(n) => 10 + n as u64,
         Drive::Wakes(n) => 20 + n as u64,
@@ -265,8 +274,85 @@ fn take_fail(ctx: &mut Ctx, logs: &[Vec<LogEv>], names: &[&str]) -> Option<Viola
 }
 
 // ------------------------------------------------------------------ semaphore (C05, C06)
-pub fn wl_semaphore<M: RawMutex + Send + Sync + 'static>(seed: u64, n: usize, rounds: usize, fair: bool, total: usize, ctx: &mut Ctx, st: &mut ConcStats) -> Option<Violation> {
-    let sem: GenericSemaphore<M> = GenericSemaphore::new(fair, total);
+/// A semaphore flavour (borrowed reference or shared handle) as the threaded workload sees it.
+pub trait SemOps: Send + Sync {
+    type Rel: SemRel;
+    type Fut: Future<Output = Self::Rel>;
+    fn acquire(&self, k: usize) -> Self::Fut;
+    fn try_acquire(&self, k: usize) -> Option<Self::Rel>;
+    fn release(&self, k: usize);
+    fn permits(&self) -> usize;
+    fn inspect(&self, v: &mut dyn FnMut(Visit) -> bool);
+    /// how often (one in ..) a completed acquisition is given back through disarm() + release()
+    const MANUAL_RELEASE_ONE_IN: usize;
+}
+pub trait SemRel {
+    fn disarm(&mut self) -> usize;
+}
+impl<'a, M: RawMutex> SemRel for futures_intrusive::sync::GenericSemaphoreReleaser<'a, M> {
+    fn disarm(&mut self) -> usize {
+        futures_intrusive::sync::GenericSemaphoreReleaser::disarm(self)
+    }
+}
+impl<M: RawMutex> SemRel for futures_intrusive::sync::GenericSharedSemaphoreReleaser<M> {
+    fn disarm(&mut self) -> usize {
+        futures_intrusive::sync::GenericSharedSemaphoreReleaser::disarm(self)
+    }
+}
+impl<'a, M: RawMutex + Send + Sync> SemOps for &'a GenericSemaphore<M> {
+    type Rel = futures_intrusive::sync::GenericSemaphoreReleaser<'a, M>;
+    type Fut = futures_intrusive::sync::GenericSemaphoreAcquireFuture<'a, M>;
+    const MANUAL_RELEASE_ONE_IN: usize = 8;
+    fn acquire(&self, k: usize) -> Self::Fut {
+        GenericSemaphore::acquire(*self, k)
+    }
+    fn try_acquire(&self, k: usize) -> Option<Self::Rel> {
+        GenericSemaphore::try_acquire(*self, k)
+    }
+    fn release(&self, k: usize) {
+        GenericSemaphore::release(*self, k)
+    }
+    fn permits(&self) -> usize {
+        GenericSemaphore::permits(*self)
+    }
+    fn inspect(&self, v: &mut dyn FnMut(Visit) -> bool) {
+        self.verif_inspect(v)
+    }
+}
+impl<M: RawMutex + Send + Sync> SemOps for futures_intrusive::sync::GenericSharedSemaphore<M> {
+    type Rel = futures_intrusive::sync::GenericSharedSemaphoreReleaser<M>;
+    type Fut = futures_intrusive::sync::GenericSharedSemaphoreAcquireFuture<M>;
+    // the shared flavour has its own release(): exercised much more often
+    const MANUAL_RELEASE_ONE_IN: usize = 2;
+    fn acquire(&self, k: usize) -> Self::Fut {
+        futures_intrusive::sync::GenericSharedSemaphore::acquire(self, k)
+    }
+    fn try_acquire(&self, k: usize) -> Option<Self::Rel> {
+        futures_intrusive::sync::GenericSharedSemaphore::try_acquire(self, k)
+    }
+    fn release(&self, k: usize) {
+        futures_intrusive::sync::GenericSharedSemaphore::release(self, k)
+    }
+    fn permits(&self) -> usize {
+        futures_intrusive::sync::GenericSharedSemaphore::permits(self)
+    }
+    fn inspect(&self, v: &mut dyn FnMut(Visit) -> bool) {
+        self.verif_inspect(v)
+    }
+}
+
+pub fn wl_semaphore<M: RawMutex + Send + Sync + 'static>(seed: u64, n: usize, rounds: usize, fair: bool, total: usize, shared: bool, ctx: &mut Ctx, st: &mut ConcStats) -> Option<Violation> {
+    if shared {
+        let sem = futures_intrusive::sync::GenericSharedSemaphore::<M>::new(fair, total);
+        wl_semaphore_inner(sem, seed, n, rounds, total, ctx, st)
+    } else {
+        let sem: GenericSemaphore<M> = GenericSemaphore::new(fair, total);
+        wl_semaphore_inner(&sem, seed, n, rounds, total, ctx, st)
+    }
+}
+
+fn wl_semaphore_inner<S: SemOps>(sem: S, seed: u64, n: usize, rounds: usize, total: usize, ctx: &mut Ctx, st: &mut ConcStats) -> Option<Violation> {
+    let sem = &sem;
     let in_use = AtomicU64::new(0);
     let over = AtomicU64::new(0);
     let cancelled = AtomicU64::new(0);
@@ -319,7 +405,7 @@ pub fn wl_semaphore<M: RawMutex + Send + Sync + 'static>(seed: u64, n: usize, ro
                     let how = if oversized {
                         if rng.below(2) == 0 { Drive::Yields(2) } else { Drive::Wakes(1) }
                     } else if last && i % 2 == 0 {
-                        Drive::Block
+                        if rng.below(3) == 0 { Drive::Repoll(1) } else { Drive::Block }
                     } else {
                         pick_drive(&mut rng)
                     };
@@ -333,7 +419,7 @@ pub fn wl_semaphore<M: RawMutex + Send + Sync + 'static>(seed: u64, n: usize, ro
                         match o {
                             Outcome::Ready(mut rel) => {
                                 hold(k);
-                                if rng.below(8) == 0 {
+                                if rng.below(S::MANUAL_RELEASE_ONE_IN) == 0 {
                                     // manual release through disarm
                                     let d = rel.disarm();
                                     drop(rel);
@@ -370,7 +456,7 @@ pub fn wl_semaphore<M: RawMutex + Send + Sync + 'static>(seed: u64, n: usize, ro
     st.cancelled += cancelled.load(Relaxed);
     st.completed += completed.load(Relaxed);
     let names = ["try_acquire", "acquire"];
-    queues_empty(ctx, "semaphore", &mut |v| sem.verif_inspect(v));
+    queues_empty(ctx, "semaphore", &mut |v| sem.inspect(v));
     let ov = over.load(Relaxed);
     ctx.check("C05", "permits-in-use-never-exceed-total", true, ov == 0, || format!("{} times more than {} permits were held at once", ov, total));
     let p = sem.permits();
@@ -612,7 +698,7 @@ fn wl_mpmc_inner<TX: TxOps, RX: RxOps>(
                             }
                             continue;
                         }
-                        let how = if steady { Drive::Block } else { pick_drive(&mut rng) };
+                        let how = if steady { if rng.below(3) == 0 { Drive::Repoll(1) } else { Drive::Block } } else { pick_drive(&mut rng) };
                         let done = log!(lg, run, i, 2u8, how_code(how), {
                             let o = drive(&run, i, rx.receive(), how, 1);
                             drive_stats(cancelled, completed, &o);
@@ -824,7 +910,7 @@ pub fn wl_event<M: RawMutex + Send + Sync + 'static>(seed: u64, n: usize, rounds
                         std::thread::yield_now();
                         continue;
                     }
-                    let how = if last { Drive::Block } else { pick_drive(&mut rng) };
+                    let how = if last { if rng.below(3) == 0 { Drive::Repoll(1) } else { Drive::Block } } else { pick_drive(&mut rng) };
                     log!(lg, run, i, 2u8, how_code(how), {
                         let o = drive(&run, i, ev.wait(), how, 1);
                         drive_stats(cancelled, completed, &o);
@@ -1656,10 +1742,11 @@ fn run_workload_inner(name: &str, seed: u64, ctx: &mut Ctx, st: &mut ConcStats) 
         }
         "semaphore" => {
             let total = 1 + rng.below(3);
+            let shared = rng.below(2) == 0;
             if spin {
-                wl_semaphore::<Spin>(seed, n, rounds, fair, total, ctx, st)
+                wl_semaphore::<Spin>(seed, n, rounds, fair, total, shared, ctx, st)
             } else {
-                wl_semaphore::<Pl>(seed, n, rounds, fair, total, ctx, st)
+                wl_semaphore::<Pl>(seed, n, rounds, fair, total, shared, ctx, st)
             }
         }
         "mpmc" => {
